@@ -67,6 +67,27 @@ Definition run_306 (h : list Z) : io :=
   let r := multiplex_setter (mplex_of (nthz h 0) (nthz h 1)) in
   [[bz (fst r); bz (negb (is_none (snd r))); match snd r with Some v => v | None => 0 end]].
 
+(* 307: ops [opcode; i; kind; value]* | [kind; value] ++ sig group ... -> a role history on live signals: every signal
+   is constructed with its token (the role fields of the sig group are ignored), then the operations run in order:
+   opcode 0 s.multiplex_setter(x), 1 s.multiplex = s.multiplex_setter(x), 2 frame.multiplex_signals().
+   Answer: [1] :: per signal [is_mux; has_mux_val; mux_val; has_parent; parent; multiplex kind; multiplex value], [[0]] = outside *)
+Fixpoint ops_of (g : list Z) (fuel : nat) : list frame_op :=
+  match fuel with
+  | O => []
+  | S f => match g with
+           | c :: i :: k :: v :: r =>
+               (if c =? 2 then FMuxSignals
+                else FSig (Z.to_nat i) (if c =? 1 then OpAssign (mplex_of k v) else OpSet (mplex_of k v))) :: ops_of r f
+           | _ => []
+           end
+  end.
+Definition mplex_out (x : mplex) : list Z := match x with MxNone => [0; 0] | MxMux => [1; 0] | MxVal v => [2; v] end.
+Definition run_307 (og : list Z) (sgs : io) : io :=
+  match run_history (map (fun g => (m_sig (msig_of (skipn 2 g)), mplex_of (nthz g 0) (nthz g 1))) sgs) (ops_of og (length og)) with
+  | None => [[0]]
+  | Some l => [1] :: map (fun st => role_out (fst st) ++ mplex_out (snd st)) l
+  end.
+
 Definition run_c03 (cmd : Z) (a : io) : io :=
   match cmd, a with
   | 301, h :: d :: sgs => run_301 h d sgs
@@ -75,5 +96,6 @@ Definition run_c03 (cmd : Z) (a : io) : io :=
   | 304, _ :: sgs => run_304 sgs
   | 305, _ :: sgs => run_305 sgs
   | 306, [h] => run_306 h
+  | 307, og :: sgs => run_307 og sgs
   | _, _ => [[-999]]
   end.
